@@ -71,6 +71,16 @@ let c19_numstat_mode m body =
        | SPanic -> "panic")
   | _ -> failwith "c19-numstat: bad case"
 
+(* in: NUMSTAT_TEXT NOTE ADDED MERGE IGNORED_PATHS   out: (ok ...) | panic
+   the whole of stats_for_commit_stats given git's two outputs *)
+let c19_commit_mode m body =
+  match parse_many body with
+  | [t; n; a; mg; ig] ->
+      (match stats_for_commit m (ignored_of ig) (str_of t) (note_of n) (added_of a) (num mg = 1) with
+       | SOk s -> show_stats s
+       | SPanic -> "panic")
+  | _ -> failwith "c19-commit: bad case"
+
 let () = run_driver
     ["c19-stats", c19_stats_mode Checked; "c19-stats-wrap", c19_stats_mode Wrapping;
-     "c19-numstat", c19_numstat_mode Checked; "c19-numstat-wrap", c19_numstat_mode Wrapping] []
+     "c19-commit", c19_commit_mode Checked; "c19-numstat", c19_numstat_mode Checked; "c19-numstat-wrap", c19_numstat_mode Wrapping] []
